@@ -535,6 +535,11 @@ class Transaction:
         # 2. Process deletes (rewrite affected manifests)
         final_manifests: List[ManifestFile] = []
         if deleted_paths:
+            # '/data/x' and 'data/x' are the same table-relative file. Compare on
+            # the slash-less form on BOTH sides: matching only the stored entry's
+            # stripped form missed a request spelled '/data/x' for an entry stored
+            # as 'data/x', and the delete silently removed nothing.
+            deleted_norm = {p.lstrip("/") for p in deleted_paths}
             for manifest in existing_manifests:
                 manifest_path = manifest.manifest_path
                 if manifest_path.startswith("/"):
@@ -550,8 +555,7 @@ class Transaction:
 
                 surviving_files = [
                     f for f in data_files
-                    if f.file_path not in deleted_paths
-                    and f.file_path.lstrip("/") not in deleted_paths
+                    if f.file_path.lstrip("/") not in deleted_norm
                 ]
 
                 if len(surviving_files) == len(data_files):
